@@ -14,8 +14,10 @@ import (
 
 func init() {
 	register(&Property{
-		ID:  "C20",
-		Gen: genC20,
+		ID:    "C20",
+		Files: []string{"fp.go"},
+		Funcs: []string{"CurryDef", "CurryNew"},
+		Gen:   genC20,
 		Rule: "N in 1..6 threads each Call 1..3 times with unique argument blocks on one CurryDef; fn logs the argument list it receives, yields, returns a value derived from it; MarkDone is called from inside fn at the k-th " +
 			"invocation or from another thread at a tape-chosen point; oracle: invocation argument lists form a chain extending by exactly one whole block, consistent with the real-time order of the Calls, at most one invocation per Call " +
 			"(exactly one if it returned before MarkDone was invoked), none for Calls begun after MarkDone returned, Result equals the last invocation's value and stays; " +
@@ -41,6 +43,7 @@ type c20Scenario struct {
 	doneRt uint64
 	final  []int
 	hung   bool
+	smoke  []Violation
 }
 
 type c20Inv struct {
@@ -168,6 +171,21 @@ func (sc *c20Scenario) Run(s *simrt.Sim) {
 		}
 		s.Yield()
 	}
+	// the interface{} wrapper CurryNew behaves like CurryNewGenerics (sequential smoke check)
+	{
+		var seen [][]interface{}
+		cw := fpgo.CurryNew(func(c *fpgo.CurryDef[interface{}, interface{}], args ...interface{}) interface{} {
+			seen = append(seen, append([]interface{}{}, args...))
+			if len(args) >= 3 {
+				c.MarkDone()
+			}
+			return len(args)
+		})
+		op := h.Do("main", "CurryNew-smoke", nil, func() (interface{}, error) { return cw.Call(1).Call("b", 3).Call(4).Result(), nil })
+		if op.Panic == "" && (op.Val != 3 || fmt.Sprint(seen) != "[[1] [1 b 3]]" || !cw.IsDone()) {
+			sc.smoke = append(sc.smoke, Violation{Clause: "api-smoke", Fingerprint: "CurryNew", Detail: fmt.Sprintf("CurryNew: Call(1).Call(b,3).Call(4) with MarkDone at 3 args: invocations %v, Result %v, IsDone %v", seen, op.Val, cw.IsDone())})
+		}
+	}
 	if sc.DoneInside > 0 || sc.DoneThread {
 		// a Call begun after MarkDone returned must not invoke fn
 		before := len(sc.invs)
@@ -205,6 +223,7 @@ func (sc *c20Scenario) Check(res *simrt.Result) []Violation {
 	add := func(clause, fp, detail string) {
 		vs = append(vs, Violation{Clause: clause, Fingerprint: fp, Detail: detail})
 	}
+	vs = append(vs, sc.smoke...)
 	if res.Reason != "done" || sc.hung {
 		add("hang", "calls-pending", "reason "+res.Reason+"; pending: "+pendingOps(sc.h))
 		return dedupe(vs)
